@@ -1295,14 +1295,153 @@ theorem compile_varNames_nodup {P : Script} {prog : Program} (h : compile P = .o
         · exact visitVarList_distinct ⟨by simp [varNames], by intro n hn; simp [varNames] at hn⟩ h0
       exact ((visitStmts_ext h1).varsDistinct g0).nodup
 
-/-! ### `varIdx` points at the declared variables -/
-
 /-- the name a declaration resource carries -/
 def declName : Resource → Option String
   | .var _ n => some n
   | .varMeta _ n _ _ => some n
   | .varBalance n _ _ => some n
   | _ => none
+
+/-- names of ALL declaration resources (plain, `meta(…)`, `balance(…)`), in table order -/
+def declNames (rs : List Resource) : List String := rs.filterMap declName
+
+theorem declNames_append_lit {rs suf : List Resource} (h : ∀ r ∈ suf, r.isLit = true) : declNames (rs ++ suf) = declNames rs := by
+  unfold declNames
+  rw [List.filterMap_append]
+  have : suf.filterMap declName = [] := by
+    rw [List.filterMap_eq_nil_iff]
+    intro r hr
+    have := h r hr
+    cases r <;> simp_all [Resource.isLit, declName]
+  rw [this, List.append_nil]
+
+theorem Ext.declNames {st st' : CState} (h : Ext st st') : declNames st'.resources = declNames st.resources := by
+  obtain ⟨⟨suf, e, hl⟩, _⟩ := h
+  rw [e]; exact declNames_append_lit hl
+
+/-- the declarations of the table are in `varIdx` and pairwise distinct -/
+structure DeclsDistinct (st : CState) : Prop where
+  nodup : (declNames st.resources).Nodup
+  declared : ∀ n ∈ declNames st.resources, st.varIdx.any (·.1 = n) = true
+
+theorem Ext.declsDistinct {st st' : CState} (h : Ext st st') (g : DeclsDistinct st) : DeclsDistinct st' :=
+  ⟨by rw [h.declNames]; exact g.nodup, by rw [h.declNames, h.vars]; exact g.declared⟩
+
+theorem visitVar_declDistinct {st st' : CState} {d : VarDecl} (g : DeclsDistinct st) (h : visitVar st d = .ok st') : DeclsDistinct st' := by
+  unfold visitVar at h
+  split at h
+  · cases h
+  · rename_i hnew
+    simp only at h
+    split at h
+    · cases h
+    · rename_i addr st1 hr
+      simp only [Except.ok.injEq] at h; subst h
+      -- `st1` = the state after the allocation; its varIdx is that of `st`
+      have key : ∃ st0, Ext st st0 ∧ ∃ r, (∀ v, r ≠ .const v) ∧ allocRes st0 r = .ok (addr, st1) ∧
+          (∀ n, declName r = some n → n = d.name) := by
+        cases ho : d.origin with
+        | none =>
+          simp only [ho] at hr
+          refine ⟨st, Ext.refl _, .var d.ty d.name, ?_, hr, ?_⟩
+          · intro v hv; cases hv
+          · intro n hn; simpa [declName] using hn.symm
+        | metaOf acc key =>
+          simp only [ho] at hr
+          split at hr
+          · cases hr
+          · rename_i a c0 st0 ha
+            refine ⟨st0, (visitTyped_ok ha).1, .varMeta d.ty d.name a key, ?_, hr, ?_⟩
+            · intro v hv; cases hv
+            · intro n hn; simpa [declName] using hn.symm
+        | balance acc ae =>
+          simp only [ho] at hr
+          split at hr
+          · cases hr
+          · split at hr
+            · cases hr
+            · rename_i a c0 st0 ha
+              split at hr
+              · cases hr
+              · rename_i s c1 st1' hs
+                refine ⟨st1', (visitTyped_ok ha).1.trans (visitTyped_ok hs).1, .varBalance d.name a s, ?_, hr, ?_⟩
+                · intro v hv; cases hv
+                · intro n hn; simpa [declName] using hn.symm
+      obtain ⟨st0, he, r, hnc, hal, hname⟩ := key
+      have g0 := he.declsDistinct g
+      have happ : appendResource st0 r = .ok (addr, st1) := by
+        unfold allocRes at hal
+        cases r with
+        | const v => exact absurd rfl (hnc v)
+        | var _ _ => exact hal
+        | varMeta _ _ _ _ => exact hal
+        | varBalance _ _ _ => exact hal
+        | monetary _ _ => exact hal
+      obtain ⟨_, rfl⟩ := appendResource_ok happ
+      have hv0 : st0.varIdx = st.varIdx := he.vars
+      have hnot : ¬ (st.varIdx.any (·.1 = d.name) = true) := hnew
+      constructor
+      · show (declNames (st0.resources ++ [r])).Nodup
+        unfold declNames
+        rw [List.filterMap_append]
+        cases hn : declName r with
+        | none => simpa [hn, declNames] using g0.nodup
+        | some n =>
+          have : n = d.name := hname n hn
+          subst this
+          simp only [List.filterMap_cons, hn, List.filterMap_nil]
+          rw [List.nodup_append]
+          refine ⟨g0.nodup, by simp, ?_⟩
+          intro x hx y hy
+          simp only [List.mem_singleton] at hy; subst hy
+          intro hxy; subst hxy
+          have := g0.declared _ hx
+          rw [hv0] at this
+          exact hnot this
+      · show ∀ n ∈ declNames (st0.resources ++ [r]), (st0.varIdx ++ [(d.name, addr)]).any (·.1 = n) = true
+        intro n hn
+        unfold declNames at hn
+        rw [List.filterMap_append, List.mem_append] at hn
+        rw [List.any_append]
+        rcases hn with hn | hn
+        · simp only [Bool.or_eq_true]; exact Or.inl (g0.declared n hn)
+        · cases hv : declName r with
+          | none => simp [hv] at hn
+          | some n' =>
+            simp only [List.filterMap_cons, hv, List.filterMap_nil, List.mem_singleton] at hn
+            subst hn
+            have := hname n hv
+            simp [this]
+
+theorem visitVarList_declDistinct {st st' : CState} {ds : List VarDecl} (g : DeclsDistinct st) (h : visitVarList st ds = .ok st') :
+    DeclsDistinct st' := by
+  induction ds generalizing st with
+  | nil => simp only [visitVarList, Except.ok.injEq] at h; subst h; exact g
+  | cons d rest ih =>
+    simp only [visitVarList] at h
+    split at h
+    · cases h
+    · rename_i st1 h1
+      exact ih (visitVar_declDistinct g h1) h
+
+/-- the declaration resources of a compiled program have pairwise distinct names -/
+theorem compile_declNames_nodup {P : Script} {prog : Program} (h : compile P = .ok prog) : (declNames prog.resources).Nodup := by
+  unfold compile at h
+  split at h
+  · cases h
+  · rename_i st0 h0
+    split at h
+    · cases h
+    · rename_i code st h1
+      simp only [Except.ok.injEq] at h; subst h
+      have g0 : DeclsDistinct st0 := by
+        unfold visitVars at h0
+        split at h0
+        · cases h0
+        · exact visitVarList_declDistinct ⟨by simp [declNames], by intro n hn; simp [declNames] at hn⟩ h0
+      exact ((visitStmts_ext h1).declsDistinct g0).nodup
+
+/-! ### `varIdx` points at the declared variables -/
 
 def lookupIdx (vi : List (String × Addr)) (n : String) : Option Addr := (vi.find? (·.1 = n)).map (·.2)
 
